@@ -319,6 +319,49 @@ func genHist(profile string, n int, r *Rng, emit func(Case)) {
 	}
 }
 
+// genConc: 2-4 goroutines reading one shared Number concurrently (real goroutines, real sync), each with its own
+// random read history; positions around and beyond the blocks other goroutines are asking for.
+func genConc(n int, r *Rng, emit func(Case)) {
+	for c := 0; c < n; c++ {
+		ver := allVers[c%3]
+		var raw, rep []int
+		length := -1
+		if r.Intn(3) == 0 {
+			rep = randDigits(r, r.Range(1, 7))
+			raw = randDigits(r, r.Intn(30))
+		} else {
+			length = r.Pick(finiteLens)
+			raw = randDigits(r, length)
+		}
+		var t toks
+		t.s("T")
+		t.ints(raw)
+		t.ints(rep)
+		t.i(1)
+		g := r.Range(2, 4)
+		t.i(g)
+		for i := 0; i < g; i++ {
+			hg := &histGen{r: r, ver: ver, length: length}
+			hg.views = []gview{{hi: MaxInt, tfin: length >= 0, isNum: true}}
+			if length >= 0 {
+				hg.views[0].hi = length
+			}
+			for k := r.Range(2, 12); k > 0; k-- {
+				if r.Intn(10) < 2 {
+					hg.derive()
+				} else {
+					hg.read()
+				}
+			}
+			t.i(len(hg.ops))
+			for _, o := range hg.ops {
+				t = append(t, o...)
+			}
+		}
+		emit(Case{Ver: ver, Op: "Conc", Args: t})
+	}
+}
+
 // genGrid: fresh Numbers, one or two derive ops with boundary arguments, then one complete read through one
 // read path. Systematic over lengths x ends x starts x read paths (the boundary grid of C04/C07).
 func genGrid(tier string, r *Rng, emit func(Case)) {
@@ -449,6 +492,18 @@ func init() {
 		genGrid(tier, r, emit)
 		genHist("chain", n, r, emit)
 	}, ops)
+	register("C05", func(tier string, r *Rng, emit func(Case)) {
+		n := 400
+		if tier == "thorough" {
+			n = 6000
+		}
+		genConc(n, r, emit)
+		nr := 24
+		if tier == "thorough" {
+			nr = 300
+		}
+		genConcRoots(r, emit, nr)
+	}, map[string]runner{"Hist": runHist, "Conc": runConc, "ConcRoots": runConcRoots})
 	register("C06", func(tier string, r *Rng, emit func(Case)) {
 		n := 600
 		if tier == "thorough" {
